@@ -577,7 +577,7 @@ def d1_complex(ctx, idx):
                     r.violation('%s.__init__: self.%s' % (cls, attr), 'built from config[%r], which is not an option of the set' % key, ctor.loc)
             gs = _func(idx, S + cls + '.gen_sample')
             try:
-                gpaths = ai.sym_exec(idx, gs, store=cpaths[0].store)      # the attributes set up by the constructor are visible
+                gpaths = ai.sym_exec(idx, gs, store=cpaths[0].store, self_cls=ci)      # the attributes set up by the constructor are visible
             except Unsupported as e:
                 raise AnalysisError('%s.gen_sample: %s' % (cls, e))
             if len(gpaths) != 1 or gpaths[0].kind != 'ret':
@@ -587,9 +587,10 @@ def d1_complex(ctx, idx):
             val = p.value
             if val[0] == 'meth' and val[1] == ('self',) and not val[4]:
                 callee = idx.lookup(ci, val[2])
-                if callee is not None and len(callee.params) == len(val[3]) + 1 and callee.module.name.startswith('mitxgraders.'):
+                cparams = callee.params if (callee is not None and callee.is_static) else (callee.params[1:] if callee is not None else [])
+                if callee is not None and len(cparams) == len(val[3]) and callee.module.name.startswith('mitxgraders.'):
                     try:
-                        cps = ai.sym_exec(idx, callee, env=dict(zip(callee.params[1:], val[3])))
+                        cps = ai.sym_exec(idx, callee, env=dict(zip(cparams, val[3])))
                     except Unsupported:
                         cps = []
                     if len(cps) == 1 and cps[0].kind == 'ret':
@@ -1133,6 +1134,7 @@ _POSITIVE_STARRED = """    if thetype == int:
 """
 
 BENIGN = [
+    Benign('retry-recorded-with-a-marker-object', MATRIX, [('            try:\n                # Apply any symmetries to the array\n                array = self.apply_symmetry(array)\n\n                # Normalize the result\n                array = self.normalize(array)\n\n                # Return the result\n                return array\n            except Retry:\n                continue\n', '            try:\n                array = self.normalize(self.apply_symmetry(array))\n            except Retry:\n                array = _NO_SAMPLE\n            if array is not _NO_SAMPLE:\n                return array\n'), ('class Retry(Exception):', '_NO_SAMPLE = object()\n\n\nclass Retry(Exception):')], None),
     Benign('complex-sets-on-a-base-class-declared-parts-order', SAMPLING, _CPLX_BASE_OK, None),
     Benign('refusals-table-built-by-a-method', MATRIX, _REFUSALS_OLD, _REFUSALS_METHOD_OK),
     Benign('rf-tile-by-coefficient-shape', SAMPLING, "xarray = np.tile(xvec, (output_dim, num_terms, 1))", "xarray = np.tile(xvec, (A.shape[0], A.shape[1], 1))"),
